@@ -9,15 +9,21 @@ DRIVER = "drv_dsu"
 DRIVER_MODULE = "Driver.Dsu"
 PROPS = "RlibModel.Props.C05"
 PROPS_SRC = "RlibModel.Props.C05Src"     # second tie: `src_*` theorems about the definitions regenerated from the source text
-PROFILES = ["release"]
+PROFILES = ["release", "debug"]          # debug: debug assertions on, no optimisation (a reduced stream, see harness_args)
 SHRINK_SEP = ";"
-RULE = ("cases are histories `n0 ; op ; ...` over un/par/check/size/reset/clone/swap/dump: (1) every union-only history (all orders and "
+RULE = ("cases are histories `n0 ; op ; ...` over un/par/check/size/reset/clone/swap/clonefrom/restore/feed/dump on TWO live structures (current and saved; "
+        "`clonefrom` = saved.clone_from(&current), `restore` = current.clone_from(&saved), i.e. Clone::clone_from in both directions onto whatever the "
+        "destination is by then: fresh, used, shorter, longer; `feed v` feeds returned values back: r = par v, check v r, size r, par r, un r v): (1) every union-only history (all orders and "
         "orientations) for small n and depth (quick: n=3 to depth 4, n=4 to 3, n=5 to 2, a 1/97 sample of n=5 depth 5; thorough: n=3 to 6, "
         "n=4 to 5, n=5 to 4, n=6 to 3, 1/7 sample of n=5 depth 5), each followed by a dump (depth measured BEFORE any lookup), check of every pair, size and par of every element and two more "
         "dumps; (2) every in-range history over the whole op alphabet incl. resets growing/shrinking, clone, swap (n=2,3, depth 3; thorough depth 4; histories that index beyond the current size are skipped there, the observation suffix uses the final size); "
-        "(3) random histories n<=12 up to 200 ops (1.5k / 30k); (4) adversarial orders (binomial worst case on block ends, chains and stars in "
+        "(3) random histories n<=12 up to 200 ops (1.5k / 30k), every third one with the header flag `dk`: three decoy structures of the same type are alive on the "
+        "same thread and get two pseudo-random operations (un/check/size/par/reset/drop+new/clone/clone_from among themselves, each checked against its own oracle) before every "
+        "operation of the history; (3b) snapshot/roll-back histories (1.2k / 20k): bursts of work on either structure, resets to other sizes, then clone / clonefrom / restore, "
+        "the size of every element read after each copy, both copies continued; (4) adversarial orders (binomial worst case on block ends, chains and stars in "
         "both argument orders, random, joined halves, with resets and clones) for every n in 2..40 and around powers of two up to 1024 "
-        "(thorough: up to 10^5, then 10^6 and 2^20); (5) randmix (un/par/size/check interleaved on random elements) at every adversarial size; (6) a small out-of-range stream: the out-of-range op ends the history, its view/spec token is `ood`, everything before it is still compared. Compared: every return value; par through the "
+        "(thorough: up to 10^5, then 10^6, 2^20 and 2^21), among them two scripts that roll back / copy onto a used structure with fewer / more elements and go on with both; "
+        "(4b) element counts past 10^6: the binomial worst case on 2^21 elements (depth 21; quick: one history, lookups at the deepest vertex first; thorough: 2^21..2^24); (5) randmix (un/par/size/check interleaved on random elements) at every adversarial size; (6) a small out-of-range stream: the out-of-range op ends the history, its view/spec token is `ood`, everything before it is still compared. Compared: every return value; par through the "
         "representative rule; the parent forest recovered from format!(\"{:?}\", dsu.clone()) (any layout with a parent-like and a size-like column) -> "
         "depth(v) <= log2(oracle class size) for every v; the private arrays are NOT compared (logged diagnostic only); `ss` histories "
         "(n = 10^5, thorough 10^6) run in a child process with a 256 KiB stack, a crash there is the view STACK!. non-trivial = distinct in-domain history containing at least one union")
@@ -25,11 +31,18 @@ ASSUMPTIONS = [
     "the Lean model of rlib_dsu is hand-written; it is tied to the code by running both on the same histories",
     "macro ops (chain/binom/star/rand/parall/...) are expanded to the same primitive calls by the harness and by the driver",
     "real stack size and usize overflow of sizes are outside the model (the proved recursion depth is <= log2 n)",
+    "Clone::clone_from is specified by std's contract for the provided method: a.clone_from(&b) behaves as a = b.clone() (model ops cloneFrom / restore, theorems "
+    "cloneFrom_spec / restore_spec); which allocations are reused is not observable and not modelled",
+    "the decoy structures of `dk` histories are invisible to the model: the history's answers must be what they are without them; the decoys' own answers are "
+    "checked by the harness against an independent quick-find oracle only (view token DECOY! on a mismatch), not against the Lean model",
+    "element counts: every n up to 40, around powers of two up to 1024 (thorough 2^16, 10^5, 10^6, 2^20, 2^21 with all adversarial scripts), the binomial order at 2^21 "
+    "in quick and up to 2^24 in thorough; a depth bound that only fails beyond depth 24 (2^25 elements or more) is out of reach of the differential run "
+    "(the theorems are for every n; the second tie reports a non-recursive find as outside its subset)",
 ]
 MANIFEST = {
     "level": "proof",
     "text": ("Lean 4 theorems about the executable array model of DSU, for every element count and every history of "
-             "un/par/check/size/reset/clone/swap: the invariant (parents in range, a rank function increasing along parent links with "
+             "un/par/check/size/reset/clone/swap/clone_from (both directions between two live structures): the invariant (parents in range, a rank function increasing along parent links with "
              "2^rank <= size at roots, size at a root = number of vertices below it) is established by new/reset and preserved by every "
              "operation; find terminates within log2 n + 1 frames (the executed model runs every find with exactly that budget), returns the root and keeps every vertex's root; check = equivalence "
              "closure of the unions since the last reset, un returns true iff the classes differed, size = cardinality of the class, the "
@@ -125,6 +138,11 @@ def extract(repo):
                    "not_translated": ["#[derive(Clone, Debug)] (taken at face value: clone = the identity on values)"],
                    "generated_file": "lean/RlibModel/Generated/DsuSrc.lean", "generated_file_rewritten": info.get("rewritten", False)})
     return params, problems + p2
+
+
+def harness_args(params, profile):
+    """The debug build gets the same streams without the bulk sample and without the sizes >= 10^5 (`gen` reads `--profile`)."""
+    return ["--profile", profile]
 
 
 def extra(ctx):
